@@ -41,9 +41,16 @@ type Ctx = ReportContext<'static, 'static, Pool, N>;
 const WILD_EP: u64 = 0xffff;
 const WILD_CL: u64 = 0xffff_ffff;
 const WILD_AT: u64 = 0xffff_ffff;
-const NPATHS: u64 = 24;
+/// 24 "near" paths (3 endpoints x 2 clusters x 4 attributes) + 20 "far" paths, each on an endpoint and
+/// cluster of its own (no two of them can be promoted into one wildcard short of the global one)
+const NEAR: u64 = 24;
+const NPATHS: u64 = 44;
+const ALL_PATHS: u64 = (1 << NPATHS) - 1;
 
 fn path_of_index(k: u64) -> (u16, u32, u32) {
+    if k >= NEAR {
+        return ((10 + k - NEAR) as u16, (100 + k - NEAR) as u32, 7);
+    }
     ((k / 8) as u16, (10 + (k / 4) % 2) as u32, (k % 4) as u32)
 }
 
@@ -51,7 +58,7 @@ fn path_of_index(k: u64) -> (u16, u32, u32) {
 enum Op {
     Change(u64, u64, u64),
     Event,
-    Sub { fab: u8, peer: u64, min: u16, max: u16, mask: u32, now: u64, lag: u64 },
+    Sub { fab: u8, peer: u64, min: u16, max: u16, mask: u64, now: u64, lag: u64 },
     Read(u32, u64),
     End(u32, char),
     Begin(u64, u64),
@@ -93,7 +100,7 @@ impl Op {
                 peer: n(2),
                 min: n(3) as u16,
                 max: n(4) as u16,
-                mask: n(5) as u32,
+                mask: n(5),
                 now: n(6),
                 lag: n(7),
             },
@@ -158,11 +165,11 @@ fn ims(v: u64) -> String {
     }
 }
 
-fn mask_of(rx: &[u8]) -> u32 {
-    if rx.len() >= 4 {
-        u32::from_le_bytes([rx[0], rx[1], rx[2], rx[3]])
+fn mask_of(rx: &[u8]) -> u64 {
+    if rx.len() >= 8 {
+        u64::from_le_bytes([rx[0], rx[1], rx[2], rx[3], rx[4], rx[5], rx[6], rx[7]])
     } else {
-        0xffff_ffff
+        u64::MAX
     }
 }
 
@@ -222,7 +229,7 @@ struct Machine {
     clock: u64,
 }
 
-fn sub_words(v: &VerifSub, mask: u32, out: &mut Vec<u64>) {
+fn sub_words(v: &VerifSub, mask: u64, out: &mut Vec<u64>) {
     out.extend_from_slice(&[
         v.id as u64,
         v.fab_idx as u64,
@@ -235,11 +242,11 @@ fn sub_words(v: &VerifSub, mask: u32, out: &mut Vec<u64>) {
         v.fail_count as u64,
         v.max_seen_attr_change_id,
         v.max_seen_event_number,
-        mask as u64,
+        mask,
     ]);
 }
 
-fn sub_text(v: &VerifSub, mask: u32) -> String {
+fn sub_text(v: &VerifSub, mask: u64) -> String {
     format!(
         "{}.{}.{}.{}.{}.{}.{}.{}.{}.{}.{}.{}",
         v.id,
@@ -410,7 +417,7 @@ impl Machine {
         }
         w.push(snap.subscriptions.len() as u64);
         for (i, s) in snap.subscriptions.iter().enumerate() {
-            let mask = masks.get(i).copied().unwrap_or(0xffff_ffff);
+            let mask = masks.get(i).copied().unwrap_or(u64::MAX);
             sub_words(s, mask, &mut w);
             let d = &dec[i];
             assert_eq!(d.id, s.id);
@@ -464,7 +471,7 @@ impl Machine {
             snap.subscriptions
                 .iter()
                 .enumerate()
-                .map(|(i, s)| sub_text(s, masks.get(i).copied().unwrap_or(0xffff_ffff)))
+                .map(|(i, s)| sub_text(s, masks.get(i).copied().unwrap_or(u64::MAX)))
                 .collect::<Vec<_>>()
                 .join(","),
             xs.join(",")
@@ -557,10 +564,12 @@ impl Gen {
     }
 
     fn rand_path(&mut self, hot: u64) -> u64 {
-        if self.rng.chance(1, 2) {
-            self.rng.below(hot.min(NPATHS))
+        if self.rng.chance(1, 8) {
+            NEAR + self.rng.below(NPATHS - NEAR)
+        } else if self.rng.chance(1, 2) {
+            self.rng.below(hot.min(NEAR))
         } else {
-            self.rng.below(NPATHS)
+            self.rng.below(NEAR)
         }
     }
 
@@ -579,13 +588,14 @@ impl Gen {
         self.push(op);
     }
 
-    fn rand_mask(&mut self) -> u32 {
-        match self.rng.below(5) {
+    fn rand_mask(&mut self) -> u64 {
+        match self.rng.below(6) {
             0 => 0xff_ffff,
+            5 => ALL_PATHS,
             1 => 1 << self.rng.below(NPATHS),
             2 => 0xff << (8 * self.rng.below(3)),
             _ => {
-                let mut m = 0u32;
+                let mut m = 0u64;
                 for _ in 0..self.rng.range(1, 6) {
                     m |= 1 << self.rng.below(NPATHS);
                 }
@@ -595,6 +605,11 @@ impl Gen {
     }
 
     fn subscribe(&mut self, min: Option<u16>, max: Option<u16>) -> Option<u32> {
+        let mask = self.rand_mask();
+        self.subscribe_mask(min, max, mask)
+    }
+
+    fn subscribe_mask(&mut self, min: Option<u16>, max: Option<u16>, mask: u64) -> Option<u32> {
         let min = min.unwrap_or_else(|| *self.rng.pick(&[0u16, 0, 1, 2, 5, 30]));
         let max = max.unwrap_or_else(|| *self.rng.pick(&[40u16, 40, 41, 60, 120, 3600, 65535]));
         let op = Op::Sub {
@@ -602,7 +617,7 @@ impl Gen {
             peer: 100 + self.rng.below(3),
             min,
             max,
-            mask: self.rand_mask(),
+            mask,
             now: self.now,
             lag: self.lag(),
         };
@@ -614,16 +629,18 @@ impl Gen {
         self.m.boot.ctxs.iter().filter(|c| c.1 == prim).map(|c| c.0).collect()
     }
 
-    fn ctx_mask(&self, sid: u32) -> u32 {
-        self.m.boot.ctxs.iter().find(|c| c.0 == sid).map_or(0, |c| mask_of(c.2.rx())) & 0xff_ffff
+    fn ctx_mask(&self, sid: u32) -> u64 {
+        self.m.boot.ctxs.iter().find(|c| c.0 == sid).map_or(0, |c| mask_of(c.2.rx())) & ALL_PATHS
     }
 
     /// some or all paths of the context's request
     fn reads(&mut self, sid: u32, all: bool) {
         let mask = self.ctx_mask(sid);
+        let mut n = 0;
         for k in 0..NPATHS {
-            if mask & (1 << k) != 0 && (all || self.rng.chance(1, 2)) {
+            if mask & (1 << k) != 0 && (all || self.rng.chance(1, 2)) && n < 26 {
                 self.push(Op::Read(sid, k));
+                n += 1;
             }
         }
     }
@@ -800,6 +817,93 @@ fn gen_case(stream: &str, id: u64, rng: Rng) -> (String, BTreeMap<String, u64>, 
             g.tick(2000);
             g.reporter_round(0, false);
         }
+        // branch stream for the overflow arms of record_raw / promote_and_insert: a full table (16 pending
+        // changes pinned by a lagging subscriber - quiet in its min interval, or with its report in flight),
+        // a second subscriber that is caught up, then the 17th change, chosen so that the overflow is resolved by
+        // (0) the global wildcard (no two entries share an endpoint), (1) a level-2 promotion, (2) a level-1
+        // promotion, (3)/(4) a promotion after which the new change is already covered
+        "g" => {
+            g.now = g.rng.below(50_000);
+            let arm = g.rng.below(5);
+            let in_flight = g.rng.chance(1, 3);
+            // the 16 entries and the 17th change
+            let mut far: Vec<u64> = (NEAR..NPATHS).collect();
+            for i in (1..far.len()).rev() {
+                let j = g.rng.below(i as u64 + 1) as usize;
+                far.swap(i, j);
+            }
+            let ep = g.rng.below(3);
+            let near = |c: u64, a: u64| ep * 8 + c * 4 + a;
+            let (mut fill, last): (Vec<u64>, u64) = match arm {
+                0 => (far[..16].to_vec(), far[16]),
+                1 => ([&far[..14], &[near(0, g.rng.below(4)), near(1, g.rng.below(4))][..]].concat(), far[16]),
+                2 => ([&far[..14], &[near(0, 0), near(0, 2)][..]].concat(), far[16]),
+                3 => ([&far[..14], &[near(1, 1), near(1, 3)][..]].concat(), near(1, 0)),
+                _ => ([&far[..14], &[near(0, 1), near(1, 1)][..]].concat(), near(1, 2)),
+            };
+            for i in (1..fill.len()).rev() {
+                let j = g.rng.below(i as u64 + 1) as usize;
+                fill.swap(i, j);
+            }
+            let concrete = fill.iter().fold(1u64 << last, |m, k| m | (1 << k));
+            let mask_a = *g.rng.pick(&[ALL_PATHS, ALL_PATHS, concrete, 1u64 << last]);
+            let mask_b = *g.rng.pick(&[ALL_PATHS, concrete, 1u64 << fill[0]]);
+            let (first_lagging, min_b) = (g.rng.chance(1, 2), if in_flight { 0 } else { 600 });
+            let mut ids = Vec::new();
+            for who in 0..2 {
+                let lagging = (who == 0) == first_lagging;
+                let (min, mask) = if lagging { (min_b, mask_b) } else { (0, mask_a) };
+                if let Some(sid) = g.subscribe_mask(Some(min), Some(3600), mask) {
+                    g.push(Op::End(sid, 'o'));
+                    ids.push((sid, lagging));
+                }
+            }
+            for k in &fill {
+                let (e, c, a) = path_of_index(*k);
+                g.push(Op::Change(e as u64, c as u64, a as u64));
+            }
+            // the caught-up subscriber is reported on; the lagging one stays quiet / is left in flight
+            g.tick(1500);
+            g.push(Op::Wake(g.now));
+            let mut held = None;
+            for _ in 0..2 {
+                let o = g.push(Op::Begin(g.now, 0));
+                let Some(sid) = o[1..].parse::<u32>().ok() else { break };
+                if ids.iter().any(|(i, l)| *i == sid && *l) {
+                    held = Some(sid);
+                    break;
+                }
+                g.push(Op::End(sid, 'o'));
+            }
+            g.push(Op::Purge);
+            // the 17th change
+            let (e, c, a) = path_of_index(last);
+            g.push(Op::Change(e as u64, c as u64, a as u64));
+            if g.rng.chance(1, 3) {
+                g.change(8);
+            }
+            // everybody is served
+            for round in 0..2 {
+                g.tick(2000);
+                if let Some(sid) = held.take() {
+                    let r = *g.rng.pick(&['o', 'o', 'f']);
+                    g.push(Op::Read(sid, last));
+                    g.push(Op::End(sid, r));
+                }
+                g.push(Op::Wake(g.now));
+                for _ in 0..2 {
+                    let o = g.push(Op::Begin(g.now, 0));
+                    let Some(sid) = o[1..].parse::<u32>().ok() else { break };
+                    g.push(Op::Read(sid, last));
+                    g.push(Op::Read(sid, fill[0]));
+                    g.push(Op::End(sid, 'o'));
+                }
+                g.push(Op::Purge);
+                if round == 0 {
+                    g.tick(700_000);
+                }
+            }
+        }
         // failing reports, back-off, expiry; restart with persisted subscriptions
         _ => {
             let max = *g.rng.pick(&[40u16, 40, 60, 90]);
@@ -836,7 +940,8 @@ fn gen_case(stream: &str, id: u64, rng: Rng) -> (String, BTreeMap<String, u64>, 
 
 fn generate(tier: &str, seed: u64) -> (Vec<String>, BTreeMap<String, u64>) {
     let scale = if tier == "thorough" { 40 } else { 1 };
-    let plan: [(&str, u64); 4] = [("r", 2200 * scale), ("p", 1200 * scale), ("o", 800 * scale), ("x", 800 * scale)];
+    let plan: [(&str, u64); 5] =
+        [("r", 2200 * scale), ("p", 1200 * scale), ("o", 800 * scale), ("x", 800 * scale), ("g", 600 * scale)];
     let mut rng = Rng::new(seed);
     let mut cases = Vec::new();
     let mut hist: BTreeMap<String, u64> = BTreeMap::new();
